@@ -1,6 +1,6 @@
-import Csverif.Model.Engine
-import Csverif.Driver.Wire
+import Csverif.Driver.EngineBase
 import Csverif.Driver.EngineXfer
+import Csverif.Driver.EngineMore
 /- Driver layer `engine` (differential tie of the engine decision tables; one line in, one canonical line out).
 
   `<op> <side> <L> <R> <lLeR> <ign> <prio> <oracle> <pcPrio>`
@@ -20,131 +20,12 @@ import Csverif.Driver.EngineXfer
   preds → sixteen T/F: needsSync L R, isCreation L R, isDeletion L R, isRename L R, isPathChange L R, hashConflict,
           isCorrupt L R, corruptGone L R, pathConflict                                                                  -/
 namespace CS.Driver.Engine
-open CS.Engine CS.Wire
+open CS.Engine CS.Wire CS.Driver.EngineBase
 open CS.Hints (Ex OT Ign)
-
-def decRel : Char → Option Rel
-  | 'n' => some .nn | 'c' => some .cn | 's' => some .ns | 'e' => some .eq | 'd' => some .ne | _ => none
-
-def encRel : Rel → Char
-  | .nn => 'n' | .cn => 'c' | .ns => 's' | .eq => 'e' | .ne => 'd'
-
-def decEx : Char → Option Ex
-  | 'u' => some .unknown | 'e' => some .present | 't' => some .trashed | 'm' => some .missing
-  | 'l' => some .likely | 'c' => some .corrupt | _ => none
-
-def encEx : Ex → Char
-  | .unknown => 'u' | .present => 'e' | .trashed => 't' | .missing => 'm' | .likely => 'l' | .corrupt => 'c'
-
-def decB : Char → Option Bool
-  | 'T' => some true | 'F' => some false | _ => none
-
-def encB (b : Bool) : Char := if b then 'T' else 'F'
-
-def decOT : Char → Option OT
-  | 'f' => some .file | 'd' => some .dir | 'n' => some .notknown | _ => none
-
-def encOT : OT → Char
-  | .file => 'f' | .dir => 'd' | .notknown => 'n'
-
-def decIgn : String → Option Ign
-  | "n" => some .no | "d" => some .discarded | "c" => some .conflict | "t" => some .tempRename | "i" => some .irrelevant
-  | _ => none
-
-def encIgn : Ign → String
-  | .no => "n" | .discarded => "d" | .conflict => "c" | .tempRename => "t" | .irrelevant => "i"
-
-def decSide (t : String) : Option Side :=
-  match t.toList with
-  | [a, b, c, d, e, f, g, h] => do
-    let saved ← if e == '-' then some none else (decEx e).map some
-    pure { oid := ← decB a, p := ← decRel b, h := ← decRel c, ex := ← decEx d, saved := saved,
-           otype := ← decOT f, changed := ← decB g, force := ← decB h }
-  | _ => none
-
-def encSide (s : Side) : String :=
-  String.ofList [encB s.oid, encRel s.p, encRel s.h, encEx s.ex,
-    (match s.saved with | none => '-' | some x => encEx x), encOT s.otype, encB s.changed, encB s.force]
-
-def decSd : String → Option Sd
-  | "L" => some .loc | "R" => some .rem | _ => none
-
-def sdc : Sd → String
-  | .loc => "L" | .rem => "R"
-
-def decTr : Char → Option TrAns
-  | 'n' => some .none | 'p' => some .path | 's' => some .sync | 'a' => some .alt | 'l' => some .lt | 'g' => some .gt
-  | _ => none
-
-def decDel : Char → Option DelRes
-  | 'o' => some .ok | 'f' => some .fnf | 'e' => some .notEmpty | 't' => some .temp | _ => none
-
-def decDl : Char → Option DlRes
-  | 'o' => some .ok | 'f' => some .fail | 'm' => some .failMissing | 'c' => some .corrupt | 't' => some .temp | _ => none
-
-def decUp : Char → Option UpRes
-  | 'o' => some .ok | 'f' => some .fail | 'm' => some .failMissing | 'n' => some .nameErr | 'c' => some .corrupt
-  | 't' => some .temp | _ => none
-
-def decMk : Char → Option MkRes
-  | 'o' => some .ok | 'p' => some .punt | 'x' => some .none_ | 'n' => some .nameErr | 't' => some .temp | _ => none
-
-def decCr : Char → Option CrRes
-  | 'o' => some .ok | 'p' => some .punt | 'n' => some .nameErr | 'c' => some .corrupt | 'y' => some .tooMany
-  | 't' => some .temp | _ => none
-
-def decRen : Char → Option RenRes
-  | 'o' => some .ok | 'f' => some .fnf | 'n' => some .nameErr | 'e' => some .exists_ | 't' => some .temp | _ => none
-
-def decRev : Char → Option RevInfo
-  | 'n' => some .none | 'x' => some .noPath | 'p' => some .path | _ => none
-
-def decOracle (t : String) (pc : String) : Option Oracle :=
-  match t.toList with
-  | [a1, a2, b1, b2, b3, c1, c2, c3, d1, d2, d3, e1, e2, f1, f2, g1, g2, g3, h1, h2, h3, h4, h5, i1, i2, j1, j2, k1, k2] => do
-    pure { trL := ← decTr a1, trR := ← decTr a2, inRoot := ← decB b1, nameConfl := ← decB b2, parentConfl := ← decB b3,
-           pcPrio := ← pc.toInt?,
-           rdc := ← decB c1, delCreate := ← decB c2, delRename := ← decB c3, del := ← decDel d1,
-           kidsNeedSync := ← decB d2, remaining := ← decB d3, dl := ← decDl e1, up := ← decUp e2,
-           childConfl := ← decB f1, disjoint := ← decB f2, mkd := ← decMk g1, cr := ← decCr g2, ren := ← decRen g3,
-           rcEnt := ← decB h1, rcNeedsSync := ← decB h2, rcDelExists := ← decB h3, fixFnf := ← decB h4, hcTemp := ← decB h5,
-           revOtherL := ← decB i1, revOtherR := ← decB i2, revInfoL := ← decRev j1, revInfoR := ← decRev j2,
-           revTrL := ← decB k1, revTrR := ← decB k2 }
-  | _ => none
-
-def encExc : Exc → String
-  | .assertion => "!assertion" | .typeError => "!typeError" | .temp => "!temp" | .tooMany => "!tooMany" | .corrupt => "!corrupt"
-
-def encOut : Out → String
-  | .ret .finished => "F" | .ret .punt => "P" | .ret .requeue => "R" | .ret .none_ => "N"
-  | .raised x => encExc x
-
-def encEff : Eff → String
-  | .hashConflict => "hc" | .split => "split" | .fin s => "fin" ++ sdc s | .punt => "punt"
-  | .notifyCorrupt s => "nc" ++ sdc s | .notifyDiscarded s => "nd" ++ sdc s
-  | .getLatest => "gl" | .getLatestForce => "glf" | .reprioritise => "reprio"
-  | .delete s => "del" ++ sdc s | .listdir s => "ls" ++ sdc s | .forceKids s => "fk" ++ sdc s
-  | .download s => "dl" ++ sdc s | .upload s => "up" ++ sdc s | .create s => "cr" ++ sdc s | .mkdir s => "mk" ++ sdc s
-  | .rename s => "rn" ++ sdc s | .checkDisjoint => "cd" | .fnfHandler => "fnf" | .nameError s => "ne" ++ sdc s
-  | .deleteOther s => "do" ++ sdc s | .conflictRename s => "cf" ++ sdc s
-
-def encEffs (fx : List Eff) : String :=
-  match fx with
-  | [] => "-"
-  | _ => ",".intercalate (fx.map encEff)
-
-def encEntry (e : Entry) : String :=
-  let ord := if e.l.changed && e.r.changed then e.lLeR else true
-  s!"{encSide e.l} {encSide e.r} {encB ord} {encIgn e.ign} {e.prio}"
-
-def line (out : String) (fx : List Eff) (e : Entry) : String := s!"{out} | {encEffs fx} | {encEntry e}"
-
-def encRes (r : Res) : String := line (encOut r.out) r.effs r.ent
-
-def bools (bs : List Bool) : String := String.ofList (bs.map encB)
 
 def step (toks : List String) : String :=
   if (toks.head?.getD "").startsWith "x" then EngineXfer.step toks else
+  if (toks.head?.getD "").startsWith "y" then EngineMore.step toks else
   match toks with
   | [op, sd, l, r, ord, ign, prio, orc, pc] =>
     match decSd sd, decSide l, decSide r, (ord.toList.head?).bind decB, decIgn ign, prio.toInt?, decOracle orc pc with
